@@ -3,7 +3,9 @@
    Only statements closed by [exact lemma], non-vacuity Examples and
    [Print Assumptions]. *)
 From RJ Require Import Base.Outcome Base.F64.
-From RJ Require Import Model.Radix Proofs.Radix_proofs.
+From RJ Require Import Model.Radix Proofs.Radix_float_proofs Proofs.Radix_proofs Proofs.Radix_long_proofs.
+From Coq Require Import Reals.
+From Flocq Require Import Core.Core IEEE754.BinarySingleNaN.
 From RJ Require Model.Base64 Proofs.Base64_arith_proofs Proofs.Base64_proofs.
 From RJ Require Model.Utf8Codec Proofs.Utf8Codec_proofs.
 From RJ Require Model.JsonParse Proofs.JsonParse_proofs.
@@ -65,11 +67,29 @@ Example C20_radix_long_witness :
   parse_num_radix 16 w_tie = Ok (f_of_bits 0x47f0000000000003).
 Proof. vm_compute. split; reflexivity. Qed.
 
-(* full statement for every length (the exact path above is the proved part) *)
-Definition C20_goal_radix_long_is_rne : Prop :=
-  forall radix s, radix_ok radix -> s <> [] -> Forall (valid radix) s ->
+(* every length: the result is the nearest-even double of the integer the digits denote, or
+   the overflow error when that double is not finite (the sticky bit of the repaired code) *)
+Theorem C20_radix_long_is_rne : forall radix s, radix_ok radix -> s <> [] -> Forall (valid radix) s ->
   parse_num_radix radix s =
     (if f_is_finite (f_of_N (value radix s)) then Ok (f_of_N (value radix s)) else Err ROverflow).
+Proof. exact radix_long_is_rne. Qed.
+
+(* [f_of_N] is SpecFloat.binary_normalize: through Flocq it is the IEEE-754 round-to-nearest-even
+   of the integer whenever that rounding is below 2^1024 *)
+Theorem C20_f_of_Z_is_rne : forall z : Z,
+  (Rabs (rne (IZR z)) < bpow radix2 1024)%R ->
+  f_is_finite (f_of_Z z) = true /\ SF2R radix2 (f_of_Z z) = rne (IZR z).
+Proof. exact f_of_Z_correct. Qed.
+
+Example C20_radix_long_nonvacuous :
+  radix_ok 16 /\ w_tie <> [] /\ Forall (valid 16) w_tie /\ length w_tie = 33%nat /\
+  f_is_finite (f_of_N (value 16 w_tie)) = true /\
+  parse_num_radix 16 (repeat 102 257) = Err ROverflow.
+Proof.
+  split; [right; reflexivity|]. split; [discriminate|]. split.
+  - repeat constructor; unfold valid; vm_compute; discriminate.
+  - vm_compute. repeat split; reflexivity.
+Qed.
 
 (* ================================ base64 ===================================== *)
 Import Model.Base64 Proofs.Base64_arith_proofs Proofs.Base64_proofs.
@@ -217,6 +237,9 @@ Print Assumptions C20_radix_nonvacuous.
 Print Assumptions C20_radix_orig_panic_refuted.
 Print Assumptions C20_radix_orig_long_refuted.
 Print Assumptions C20_radix_long_witness.
+Print Assumptions C20_radix_long_is_rne.
+Print Assumptions C20_f_of_Z_is_rne.
+Print Assumptions C20_radix_long_nonvacuous.
 Print Assumptions C20_base64_decode_encode.
 Print Assumptions C20_base64_string_roundtrip.
 Print Assumptions C20_base64_alphabet_padding.
